@@ -61,6 +61,7 @@ type GenCfg struct {
 	NoPtr      bool // no pointer-typed group/command fields, no options inside untagged struct fields
 	InCode     int  // percent of options some of whose attributes are assigned in code instead of by tag
 	NoFlag     bool // fields marked no-flag that would otherwise declare options
+	ViaAdd     int  // percent of groups whose last option(s) are added with Group.AddOption
 }
 
 // uniformInt draws an (almost exactly) uniform integer in [0, n). rapid's own
@@ -484,9 +485,28 @@ func (g *declGen) group(ns *nameSets, nsPrefix string, depth int, allowEmpty boo
 			}
 		}
 	}
+	if cfg.ViaAdd > 0 && pct(t, "viaAdd", cfg.ViaAdd) {
+		// a suffix of the options is added with AddOption (no tag-only attributes)
+		for i := len(gr.Options) - 1; i >= 0; i-- {
+			o := &gr.Options[i]
+			if o.Base != 0 || o.Unquote != "" || o.IniName != "" || o.NoIni || len(o.InCode) > 0 || o.RawTag != nil || len(o.Initial) > 0 {
+				break
+			}
+			o.ViaAdd = true
+			if !pct(t, "viaAddMore", 40) {
+				break
+			}
+		}
+	}
 	gr.OptsLast = pct(t, "optsLast", 30)
 	// a run of options declared inside an untagged (pointer to) struct field
-	if n := len(gr.Options); n > 0 && !cfg.NoPtr && pct(t, "inlineBlock", 12) {
+	nTagged := 0
+	for _, o := range gr.Options {
+		if !o.ViaAdd {
+			nTagged++
+		}
+	}
+	if n := nTagged; n > 0 && !cfg.NoPtr && pct(t, "inlineBlock", 12) {
 		from := rapid.IntRange(0, n-1).Draw(t, "inlineFrom")
 		to := rapid.IntRange(from+1, n).Draw(t, "inlineTo")
 		mark := rapid.SampledFrom([]string{"s", "p", "p", "P", "e"}).Draw(t, "inlineMark")
@@ -558,6 +578,9 @@ func (g *declGen) positional() *Positional {
 	}
 	if g.cfg.PosSplit && len(p.Args) >= 2 && pct(t, "posSplit", 35) {
 		p.Split = rapid.IntRange(1, len(p.Args)-1).Draw(t, "posSplitAt")
+	}
+	if !g.cfg.NoPtr && pct(t, "ptrPos", 15) {
+		p.Ptr = rapid.SampledFrom([]string{"nil", "nil", "set"}).Draw(t, "ptrPosKind")
 	}
 	if g.cfg.PosReq && pct(t, "posStructReq", 35) {
 		p.Required = rapid.SampledFrom([]string{"yes", "1", "true"}).Draw(t, "posStructReqVal")
